@@ -1616,7 +1616,7 @@ class SymCtx:
         n, _den = _ratfun(_simp(acc))
         return z3.simplify(n, som=True, som_blowup=10000000)
 
-    def path_model(self):
+    def path_model(self, noninteger=False):
         """A model of the current path condition (for shadow validation)."""
         s = z3.Solver()
         s.set('random_seed', self.seed)
@@ -1624,7 +1624,7 @@ class SymCtx:
         s.add(*self.pc)
         # first try a "generic position" assignment of the real inputs (turns non-linear conditions into ground ones)
         reals = [c for n_, c in self.inputs.items() if self.input_kinds.get(n_) == 'real']
-        for scale, off in ((1, Fraction(1, 13)), (1, 0), (7, 0)):
+        for scale, off in (((1, Fraction(1, 13)),) if noninteger else ()) + ((1, 0), (7, 0)):
             # (first choice: non-integer values, so that casts / truncations in the real code are visible to the twin)
             s.push()
             s.add(*[c == z3.RealVal(str(Fraction((i * 37) % 11 * scale + i + 1, 1 + (i % 3)) + off)) for i, c in enumerate(reals)])
